@@ -1474,6 +1474,9 @@ namespace bloch::compiler {
         }
         if (auto var = dynamic_cast<VariableExpression*>(expr)) {
             if (!isDeclared(var->name)) {
+                // A bare field name inside a method is a valid (non-constant) operand.
+                if (resolveField(var->name, var->line, var->column))
+                    return std::nullopt;
                 throw BlochError(ErrorCategory::Semantic, var->line, var->column,
                                  "Variable '" + var->name + "' not declared");
             }
